@@ -23,7 +23,7 @@ def main():
         r = common.run_tlc(name, invariants=["DbgInv%d" % i for i in range(len(exprs))], trace=trace,
                            init="DbgInit", nxt="DbgNext", workers=1, cont=False)
         for line in r.output.splitlines():
-            if "DBG" in line or line.startswith("Error") or "rror" in line[:20]:
+            if True:
                 print(line)
         if r.errors:
             print(r.output[-3000:])
